@@ -1087,6 +1087,7 @@ class LongItmdVariants(dict):
             is_new_remainder = False
             # possibly we got another -1 from matching the remainder
             prefactor *= factor
+            unit_factorization_pref *= factor
 
             # next, we can separate them according to the itmd_positions
             # so we can later build intermediate variants more efficient
